@@ -146,6 +146,11 @@ func runC18b(p *C18bPlan) (*stats.Case, error) {
 	// final phase: every dial succeeds; some address must still be usable
 	mu.Lock()
 	phaseSuccess = true
+	mu.Unlock()
+	// a dial that was decided as "refused" just before the switch may still report its failure (and be the 25th one that
+	// bans its address): the set of usable addresses is read after those have settled
+	time.Sleep(40 * time.Millisecond)
+	mu.Lock()
 	usable := 0
 	for i := 0; i < p.Addrs; i++ {
 		if !banned[(&net.TCPAddr{IP: net.IPv4(10, 0, byte(i), 1), Port: 8333}).String()] {
